@@ -24,7 +24,6 @@ PID = "C12"
 ALPHA = [0x61, 0xE4, 0x20AC, 0x1F600]                 # 1-, 2-, 3-, 4-byte representative
 BOUNDARY = [0x01, 0x7F, 0x80, 0x7FF, 0x800, 0xD7FF, 0xE000, 0xFFFD, 0xFFFF, 0x10000, 0x10FFFF]
 NREG = 4
-HEAL = 1 << 40
 
 
 def enc(cs):
@@ -325,18 +324,6 @@ def rand_history(rng, maxlen=12):
     return h
 
 
-def heal(h):
-    """the same history with every register re-sliced (fresh allocation of exactly the text) after a
-    replacement by a shorter character"""
-    bad = set(shrinking_replaces(h))
-    out = []
-    for n, op in enumerate(h):
-        out.append(op)
-        if n in bad:
-            out.append(("X", op[1], op[1], 1, HEAL))
-    return out
-
-
 # ---- DDP programs ------------------------------------------------------------------------------------------------
 def ddp_char(c):
     return "(%d als Buchstabe)" % c
@@ -364,10 +351,6 @@ def ddp_program(h):
                 return None
             L.append("Speichere %s in r%d." % (t, op[1]))
         elif k == "C":
-            if op[1] == op[2]:
-                # `Speichere t in t.` frees t before copying it (compiler.go VisitAssignStmt): a double free that
-                # belongs to the ownership properties (C05/C08), not to the text runtime; reported, not generated
-                return None
             L.append("Speichere r%d in r%d." % (op[2], op[1]))
         elif k == "K":
             L.append("Speichere r%d verkettet mit r%d in r%d." % (op[2], op[3], op[1]))
@@ -455,10 +438,10 @@ FIXED_PROGRAMS = [
      ("X", 1, 0, 2, 3), ("W", 1), ("K", 2, 1, 0), ("F", 2), ("Q", 2, 0), ("C", 3, 2), ("Q", 3, 2), ("I", 0, 5)],
     [("T", 0, 0x10FFFF), ("S", 1, 0, 0x7F), ("P", 2, 0x800, 1), ("F", 2), ("N", 2), ("W", 2), ("R", 2, 0x1F600, 2), ("F", 2), ("W", 2)],
     [("L", 0, [0x61, 0x62]), ("R", 0, 0xE4, 1), ("L", 1, [0xE4, 0x62]), ("Q", 0, 1), ("Q", 1, 0), ("F", 0), ("X", 2, 0, 5, 1)],
-    # the in-place replacement by a shorter character, then every consumer (iteration is cut off after 64 rounds)
+    # the in-place replacement by a shorter character, then every consumer; self-assignment of a text
     [("L", 0, [0x48, 0xE4, 0x6C, 0x6C, 0x6F]), ("R", 0, 0x61, 2), ("W", 0), ("N", 0), ("L", 1, [0x58]), ("K", 2, 0, 1), ("W", 2), ("N", 2)],
     [("L", 0, [0x20AC, 0x78]), ("R", 0, 0x61, 1), ("L", 1, [0x61, 0x20AC]), ("R", 1, 0x78, 2), ("W", 0), ("W", 1), ("Q", 0, 1)],
-    [("L", 0, [0xE4, 0x62]), ("R", 0, 0x61, 1), ("F", 0)],
+    [("L", 0, [0xE4, 0x62]), ("R", 0, 0x61, 1), ("F", 0), ("C", 0, 0), ("W", 0), ("P", 0, 0x1F600, 0), ("C", 0, 0), ("F", 0)],
 ]
 
 
@@ -492,7 +475,7 @@ def main():
     IMPL_FORK = [rt, "fork"]
     MODEL = [model]
     stats = dict(scalars=0, sequences=0, histories_exhaustive=0, histories_random=0, histories_asan=0, programs=0, operations=0,
-                 model_oob_or_stuck=0, known_defect_histories=0, op_kinds={})
+                 model_oob_or_stuck=0, op_kinds={})
     import time
     tlast = [time.time()]
 
@@ -573,36 +556,16 @@ def main():
                     break
         return cur
 
-    shrunk_budget = [4]
-
-    def report(h, impl, verdict, leg, healed_ok=None):
-        """the implementation contradicts the specification on history h.  healed_ok: verdict of the batch
-        run of heal(h) (True = the healed history meets the specification)"""
+    def report(h, impl, verdict, leg):
+        """the implementation contradicts the specification on history h"""
         n, what = verdict
         stats["contradictions"] = stats.get("contradictions", 0) + 1
         if len(ck.violations) >= 6:
             return            # enough minimised replays; further contradictions are only counted
-        if shrinking_replaces(h):
-            # attribution: the same history with the register re-sliced (freshly allocated) after every
-            # replacement by a shorter character
-            hh = heal(h)
-            if healed_ok is None:
-                healed_ok = judge(hh, impl_one(hh)) is None
-            if healed_ok:
-                stats["known_defect_histories"] += 1
-                if shrunk_budget[0] <= 0:
-                    ck.violation("history: (not minimised) replace-shorter; passes when the register is re-sliced after the replacement",
-                                 what, dict(history=hist_lines(h)))
-                    return
-                shrunk_budget[0] -= 1
-            else:
-                h = hh        # fails even when healed: an independent failure, minimise that one
         small = shrink(h)
         o = impl_one(small)
         v = judge(small, o)
         key = describe(small)
-        if any(op == ("X", op[1], op[1], 1, HEAL) for op in small if op[0] == "X"):
-            key = key.replace("replace-shorter", "replace-shrinking+resliced")
         s = Spec()
         want = []
         for op in small:
@@ -634,14 +597,8 @@ def main():
             compare_with_model(h, i, m, leg)   # disagreements are recorded in model_mismatch
             if v is not None:
                 failing.append((h, i, v))
-        # one batch run decides for every failing history with a shrinking replacement whether the
-        # known defect explains it
-        need = [k for k, (h, i, v) in enumerate(failing) if shrinking_replaces(h)]
-        healed = [heal(failing[k][0]) for k in need]
-        hout = run_histories(IMPL, healed, fork_cmd=IMPL_FORK) if healed else []
-        verdicts = {k: judge(hh, o) is None for k, hh, o in zip(need, healed, hout)}
-        for k, (h, i, v) in enumerate(failing):
-            report(h, i, v, leg, verdicts.get(k))
+        for h, i, v in failing:
+            report(h, i, v, leg)
         return impl, mod
 
     def parse_hist_file(path):
@@ -679,6 +636,9 @@ def main():
     nsh = 16
     step = (HI - LO) // nsh + 1
     ranges = [(LO + k * step, min(HI, LO + (k + 1) * step - 1)) for k in range(nsh)]
+    # far outside the code space (5- and 6-byte forms of old UTF-8, the int32 limits)
+    ranges += [(v, v) for v in (0x1FFFFF, 0x200000, 0x3FFFFFF, 0x4000000, 0x7FFFFFFF, -0x80000000, -0x7FFFFFFF, -1000)]
+    ranges += [(lo, lo + 64) for lo in [ck.rng.randint(0x110011, 0x7FFFFF00) for _ in range(40)] + [ck.rng.randint(-0x80000000, -70) for _ in range(20)]]
 
     def scal(rg):
         line = ["U %d %d" % rg]
@@ -704,6 +664,13 @@ def main():
                                      dict(input="U %d %d" % (c, c), implementation=a, specification=want, how="echo 'U c c' | rtdrive"))
                 if c != 0:
                     ck.nontrivial(("u", c))
+            else:
+                # not a Unicode scalar value: refused — the empty text "\0" of capacity 1, no width, nothing decoded
+                want = "u %d 1 00 -1 0 - %d" % (c, c)
+                if a != want and stats.setdefault("scalar_contradictions", 0) < 5:
+                    stats["scalar_contradictions"] += 1
+                    ck.violation("non-scalar ddpchar %d per-character operations" % c, "expected %r (refused), implementation %r" % (want, a),
+                                 dict(input="U %d %d" % (c, c), implementation=a, specification=want, how="echo 'U c c' | rtdrive"))
             if a != m and len(model_mismatch) < 5:
                 model_mismatch.append(("scalar", dict(input="U %d %d" % (c, c), implementation=a, model=m)))
     ck.count(stats["scalars"])
@@ -826,10 +793,6 @@ def main():
             pos = len(i) - 1
             predicted = pos < len(mcores) and mcores[pos] in ("OOB", "UNDEF")
             if not predicted:
-                if shrinking_replaces(h):
-                    hh = heal(h)
-                    if run_tool([rta, "flush"], hist_lines(hh), env=asan_env)[0] == 0:
-                        continue
                 if len(model_mismatch) < 5:
                     model_mismatch.append(("asan", dict(history=hist_lines(h), implementation=i, model=m,
                                                         what="sanitizer report / crash at a step where the model predicts a defined result")))
@@ -878,16 +841,6 @@ def main():
             if (rc, out) != (wrc, wout):
                 what = "compiled program (-O %d): expected exit %d stdout %r, got exit %d stdout %r" % (opt, wrc, wout[:200], rc, out[:200])
                 key = "program " + describe(h)
-                if shrinking_replaces(h):
-                    hh = heal(h)
-                    src = os.path.join(sd, "healed%d.ddp" % n)
-                    open(src, "w").write(ddp_program(hh))
-                    exe = os.path.join(sd, "healed%d_O%d" % (n, opt))
-                    r = b.compile(src, exe, opt=opt)
-                    if r["stage"] == "ok" and run_limited(exe) == ddp_expected(hh)[::-1]:
-                        stats["known_defect_histories"] += 1
-                    else:
-                        key = "program " + describe(hh).replace("replace-shorter", "replace-shrinking+resliced")
                 ck.violation(key, what, dict(source=ddp_program(h), optimisation=opt, expected_stdout=wout.decode("utf-8", "replace"),
                                              expected_exit=wrc, stdout=out[:2000].decode("utf-8", "replace"), exit=rc))
     ck.sample(dict(leg="program", source=ddp_program(progs[0]), expected=ddp_expected(progs[0])[0].decode("utf-8", "replace")))
@@ -916,10 +869,9 @@ def main():
         rule="non-trivial history = at least 3 operations, one of concat/slice/replace and a literal with a multi-byte character; non-trivial scalar = every scalar value except U+0000; distinct by content",
         assumptions_note="theorems quantify over codecs satisfying codec_ok; glibc's codec is checked against utf8_enc on every scalar value on every run",
     ))
-    ck.assumptions = ["U+0000 excluded from text characters (tchar): a NUL-terminated Text cannot hold it — C12_nul_char_refuted",
-                      "replacement by a character with a shorter encoding excluded from C12_replace_partial / C12_history_refines_partial — C12_replace_shorter_refuted, C12_history_refuted"]
-    ck.finish("theorems: full for literal/copy/length/index/slice/concat/char concat/char-to-text/equality/iteration/print/casts/codec; "
-              "partial for replace and histories (shrink-free); refuted: replace by shorter character, history, equality, iteration, over-read, U+0000")
+    ck.assumptions = ["U+0000 excluded from text characters (tchar): a NUL-terminated Text cannot hold it — C12_nul_char_refuted"]
+    ck.finish("theorems: full for literal/copy/length/index/slice/concat/char concat/char-to-text/replace/equality/iteration/print/casts/codec and for "
+              "all histories over texts; refuted: U+0000 as a text character; C12_old_replace_shorter_refuted documents the repaired defect on the old definition")
 
 
 if __name__ == "__main__":
